@@ -31,8 +31,26 @@ Fixpoint filter_flags (x : str) : str :=
 Definition server_enc (ct : str) : enc :=
   let f := filter_flags ct in
   if is_s f "application/octet-stream" || is_s f "application/x-protobuf" then EBin else EJson.
-(* Go client: exact comparison with its two constants, default protojson *)
-Definition client_enc (ct : str) : enc := if is_s ct "application/x-protobuf" then EBin else EJson.
+(* Go client (marshalRequest / unmarshalResponse): exact comparison, binary for ContentTypeProto and
+   "application/octet-stream" (dea0491), protojson otherwise — so a binary type WITH parameters
+   ("application/x-protobuf; charset=utf-8") is still JSON for the client and binary for the server *)
+Definition client_enc (ct : str) : enc :=
+  if is_s ct "application/x-protobuf" || is_s ct "application/octet-stream" then EBin else EJson.
+
+(* the content type of a call of the generated Go client (internal/clientgen/generator.go:533-536,561,589-596):
+   the client-level value (constructor default ContentTypeJSON, With<Svc>ContentType) unless the call
+   overrides it (With<Svc>CallContentType, non-empty); this EFFECTIVE value is the request's Content-Type
+   header, selects the request encoding and selects the decoder of the response and of error bodies *)
+Inductive ctspec :=
+  | RawCT (ct : str)                                   (* no client: a raw request with this header ("" = absent) *)
+  | CallCT (client_level : option str) (per_call : option str).
+Definition client_default (o : option str) : str :=
+  match o with Some ((_ :: _) as c) => c | _ => s "application/json" end.
+Definition effective_ct (client_level per_call : option str) : str :=
+  match per_call with Some ((_ :: _) as c) => c | _ => client_default client_level end.
+Definition request_ct (sp : ctspec) : str :=
+  match sp with RawCT ct => ct | CallCT cl ca => effective_ct cl ca end.
+Definition through_client (sp : ctspec) : bool := match sp with CallCT _ _ => true | RawCT _ => false end.
 
 (* ---- error values ------------------------------------------------------------------------------------ *)
 (* fields of a generated message named *Error, in field-number order *)
@@ -114,6 +132,22 @@ Definition pmsg_text (p : pmsg) : etext :=
   end.
 Definition default_status (p : pmsg) : Z := match p with PValidation _ => 400 | _ => 500 end.
 Definition handler_ran (src : source) : bool := match src with SHandler _ => true | _ => false end.
+
+(* ---- which failure surfaces ------------------------------------------------------------------------------ *)
+(* BindingMiddleware (internal/httpgen/generator.go:333-384 after 7c13957) stops at the first failing
+   stage: required headers, then the body (POST/PUT/PATCH; bound first because unmarshalling resets the
+   message), then path and query values, then the protovalidate rules *)
+Inductive stage := StHeader | StBody | StUrl | StRule.
+Definition stage_rank (st : stage) : nat := match st with StHeader => 0 | StBody => 1 | StUrl => 2 | StRule => 3 end.
+Fixpoint first_failure (l : list (stage * source)) : option (stage * source) :=
+  match l with
+  | [] => None
+  | x :: r =>
+      match first_failure r with
+      | Some y => if Nat.leb (stage_rank (fst x)) (stage_rank (fst y)) then Some x else Some y
+      | None => Some x
+      end
+  end.
 
 (* ---- the hook ------------------------------------------------------------------------------------------ *)
 (* a scripted ErrorHandler: set one header, then WriteHeader(status), then Write(bytes), then return a
@@ -433,6 +467,12 @@ Definition client_go (ct : str) (r : response) : cresult :=
     end
   else generic.
 
+(* one call: the server answers the request (its Content-Type is the effective one), the client decodes
+   the answer with the same effective content type *)
+Definition go_call_outcome (src : source) (h : option hook) (client_level per_call : option str) : cresult :=
+  let ct := effective_ct client_level per_call in
+  client_go ct (serve_error src h ct).
+
 (* ---- defect classes -------------------------------------------------------------------------------------------- *)
 Inductive c10_defect :=
   | DHookStatusLosesContentType   (* hook calls WriteHeader and leaves the body to the server: Content-Type set afterwards is lost *)
@@ -442,7 +482,7 @@ Inductive c10_defect :=
   | DClientDropsStatus            (* *sebufhttp.Error has no status field *)
   | DClientMisreadsForeignBody    (* a body that is no sebuf Error / ValidationError is read as one (binary: unknown fields) *)
   | DClientEmpty400IsValidation   (* 400 with an empty / {} body becomes ValidationError{} *)
-  | DClientEncodingMismatch.      (* content types the server treats as binary and the client as JSON *)
+  | DClientEncodingMismatch.      (* binary content types with parameters: binary for the server (filterFlags), JSON for the client *)
 Definition c10_defect_str (d : c10_defect) : str :=
   match d with
   | DHookStatusLosesContentType => s "hook-status-then-body-loses-content-type"
@@ -525,8 +565,8 @@ Definition cresult_json (r : response) (c : cresult) : json :=
 
 Definition dedup_c10 (l : list str) : list str := dedup_strs l.
 
-(* case = (source, hook, request content type, with the Go client?) *)
-Definition c10_case := (source * option hook * str * bool)%type.
+(* case = (source, hook, content-type specification: raw header, or client-level + per-call values) *)
+Definition c10_case := (source * option hook * ctspec)%type.
 
 Fixpoint herr_strings (e : herr) : list str :=
   match e with
@@ -552,7 +592,9 @@ Definition c10_unmodelled (src : source) (h : option hook) : option str :=
   end.
 
 Definition predict_C10 (c : c10_case) : json :=
-  let '(src, h, ct, with_client) := c in
+  let '(src, h, sp) := c in
+  let ct := request_ct sp in
+  let with_client := through_client sp in
   match c10_unmodelled src h with
   | Some why => JObj [(s "unmodelled", JStr why)]
   | None =>
@@ -619,6 +661,18 @@ Definition ts_client (status : Z) (body : option json) : ts_cresult :=
     | _ => TSApi status body
     end
   else TSApi status body.
+
+(* several failing stages at once: (stage, source) candidates; what is answered, and whether the body
+   reader was touched (not for a header failure) *)
+Definition predict_C10_order (c : list (stage * source) * str) : json :=
+  match first_failure (fst c) with
+  | None => JObj [(s "unmodelled", JStr (s "no failing stage"))]
+  | Some (st, src) =>
+      let r := serve_error src None (snd c) in
+      JObj [(s "tags", JArr []); (s "status", JNum (r_status r)); (s "body", body_json (r_enc r) (r_body r));
+            (s "handler", JBool (handler_ran src));
+            (s "body_read", JBool (match st with StHeader => false | _ => true end))]
+  end.
 
 Definition predict_C10_ts (c : ts_thrown * option Z) : json :=
   let r := ts_server_error (fst c) (snd c) in
